@@ -14,9 +14,9 @@ Definition preservesM {A} (m0 : Z) (m : M A) : Prop :=
 Lemma pm_weaken {A} m0 (m : M A) : preserves P m -> preservesM m0 m.
 Proof. intros H s a s' E Hs _. eapply H; eauto. Qed.
 
-Lemma pres_get_mode {A} (f : session -> M A) :
-  (forall s0, preservesM (s_mode s0) (f s0)) -> preserves P (bind get f).
-Proof. intros H s a s' E Hs. unfold bind, get in E. eapply H; eauto. Qed.
+Lemma pres_gets_mode {A} (f : Z -> M A) :
+  (forall m0, preservesM m0 (f m0)) -> preserves P (bind (gets s_mode) f).
+Proof. intros H s a s' E Hs. unfold bind, gets in E. eapply H; eauto. Qed.
 
 Lemma pm_bind_log {A B} m0 (m : M A) (f : A -> M B) :
   log_only m -> (forall a, preservesM m0 (f a)) -> preservesM m0 (bind m f).
@@ -43,18 +43,18 @@ Qed.
 Lemma pres_injectHtmlAttributes tag consume : preserves P (injectHtmlAttributes tag consume).
 Proof.
   unfold injectHtmlAttributes. destruct tag; [apply pres_ret|]. pr; try (pres_mod HP; fail).
-  all: apply pres_modify; intros s1 Hs1; unfold register_or_report;
+  all: apply pres_modify; intros sx Hsx; unfold register_or_report;
     match goal with |- P (if ?c then _ else _) => destruct c eqn:Ec end; fo HP;
     apply orb_false_iff in Ec as [_ Ec]; apply fo_ids_cons; auto.
 Qed.
 
 Lemma pres_macros_setValue name value : preserves P (macros_setValue name value).
 Proof.
-  unfold macros_setValue. apply pres_get_mode. intros s0.
-  destruct (setValue_skip (s_mode s0)) eqn:E; [apply pm_ret|].
+  unfold macros_setValue. apply pres_gets_mode. intros m0.
+  destruct (setValue_skip m0) eqn:E; [apply pm_ret|].
   match goal with |- preservesM _ (if ?c then _ else _) => destruct c end.
   - apply pm_weaken, (pres_log_msg _ HP).
-  - intros s a s' H Hs Hm. inversion H; subst. apply fo_macros; auto. congruence.
+  - intros s a s' H Hs Hm. inversion H; subst. apply fo_macros; auto; congruence.
 Qed.
 
 Hint Resolve pres_blockattributes_parse pres_injectHtmlAttributes pres_macros_setValue : presdb.
@@ -78,7 +78,7 @@ Qed.
 Lemma pres_if_dblocks n v : preserves_if P (fun s => blockDefFilter_skip (s_mode s) = false)
                                          (dblocks_setDefinition n v).
 Proof.
-  intros s a s' H Hs Hg. unfold dblocks_setDefinition in H. unfold bind, get in H.
+  intros s a s' H Hs Hg. unfold dblocks_setDefinition in H. unfold bind, gets in H.
   destruct (negb _).
   - eapply (pres_log_msg _ HP); eauto.
   - destruct (re_search _ _) as [m|]; [|eapply (pres_log_msg _ HP); eauto].
@@ -136,30 +136,30 @@ Proof.
   unfold line_filter. destruct (l_filter d).
   - pr.
   - pr.
-  - apply pres_get_mode; intros s0. destruct (blockDefFilter_skip (s_mode s0)) eqn:E; [apply pm_ret|].
+  - apply pres_gets_mode; intros m0. destruct (blockDefFilter_skip m0) eqn:E; [apply pm_ret|].
     apply pm_bind_log; [apply log_only_macros_expand|]. intros v.
     intros s a s' H Hs Hm. unfold bind in H.
     destruct (dblocks_setDefinition _ _ s) as [[u s1]| |] eqn:E1; try discriminate.
-    inversion H; subst. eapply pres_if_dblocks; eauto. simpl; congruence.
-  - apply pres_get_mode; intros s0. destruct (quoteDefFilter_skip (s_mode s0)) eqn:E; [apply pm_ret|].
+    inversion H; subst. eapply pres_if_dblocks; eauto; simpl; congruence.
+  - apply pres_gets_mode; intros m0. destruct (quoteDefFilter_skip m0) eqn:E; [apply pm_ret|].
     apply pm_bind_log; [apply log_only_macros_expand|]. intros o.
     apply pm_bind_log; [apply log_only_macros_expand|]. intros c.
     intros s a s' H Hs Hm. unfold bind in H.
     destruct (quotes_setDefinition _ s) as [[u s1]| |] eqn:E1; try discriminate.
-    inversion H; subst. eapply pres_if_quotes; eauto. simpl; congruence.
-  - apply pres_get_mode; intros s0. destruct (replacementDefFilter_skip (s_mode s0)) eqn:E; [apply pm_ret|].
+    inversion H; subst. eapply pres_if_quotes; eauto; simpl; congruence.
+  - apply pres_gets_mode; intros m0. destruct (replacementDefFilter_skip m0) eqn:E; [apply pm_ret|].
     apply pm_bind_log; [apply log_only_macros_expand|]. intros r.
     intros s a s' H Hs Hm. unfold bind in H.
     destruct (replacements_setDefinition _ _ _ s) as [[u s1]| |] eqn:E1; try discriminate.
-    inversion H; subst. eapply pres_if_repls; eauto. simpl; congruence.
+    inversion H; subst. eapply pres_if_repls; eauto; simpl; congruence.
   - pr.
   - pr. apply pres_modify; intros; apply fo_id; auto.
   - pr.
-  - apply pres_get_mode; intros s0. destruct (apiOptionFilter_skip (s_mode s0)) eqn:E; [apply pm_ret|].
+  - apply pres_gets_mode; intros m0. destruct (apiOptionFilter_skip m0) eqn:E; [apply pm_ret|].
     apply pm_bind_log; [apply log_only_macros_expand|]. intros v.
     intros s a s' H Hs Hm. unfold bind in H.
     destruct (setOption_doc _ _ s) as [[u s1]| |] eqn:E1; try discriminate.
-    inversion H; subst. eapply pres_if_setOption_doc; eauto. simpl; congruence.
+    inversion H; subst. eapply pres_if_setOption_doc; eauto; simpl; congruence.
 Qed.
 
 Hint Resolve pres_verifyMacroLine pres_line_filter : presdb.
@@ -204,8 +204,8 @@ Hint Resolve pres_dblock_body : presdb.
 Lemma pres_dblock_loop k : forall i rd allowed, preserves P (dblock_loop fuel doc k i rd allowed).
 Proof.
   induction k as [|k IH]; intros i rd allowed; simpl; [apply pres_ret|].
-  apply pres_bind; [apply pres_get|]. intros s.
-  destruct (nth_error _ _) as [d|]; [|apply pres_ret].
+  apply pres_bind; [apply pres_gets|]. intros od.
+  destruct od as [d|]; [|apply pres_ret].
   destruct (_ && _); [apply IH|].
   destruct rd as [|cur rest]; [apply pres_raise|].
   destruct (re_search _ _) as [m|]; [|apply IH].
@@ -215,7 +215,7 @@ Proof.
 Qed.
 
 Lemma pres_dblocks_render rd allowed : preserves P (dblocks_render fuel doc rd allowed).
-Proof. unfold dblocks_render. apply pres_bind; [apply pres_get|]. intros; apply pres_dblock_loop. Qed.
+Proof. unfold dblocks_render. apply pres_bind; [apply pres_gets|]. intros; apply pres_dblock_loop. Qed.
 Hint Resolve pres_dblocks_render : presdb.
 
 Lemma pres_matchItem rd : preserves P (matchItem rd).
@@ -262,11 +262,11 @@ Proof.
       destruct (_ || _); [apply pres_ret|].
       apply pres_bind; [apply pres_matchItem|]. intros [nx rd2].
       destruct nx as [nx|].
-      * apply pres_bind; [apply pres_get|]. intros s. destruct (mem _ _); [apply pres_ret|].
+      * apply pres_bind; [apply pres_gets|]. intros is_open. destruct is_open; [apply pres_ret|].
         apply pres_bind; [apply IH1|]. intros [[o nn] rd3]. apply pres_ret.
       * destruct ad; [apply pres_ret|].
         destruct (bl =? 0)%Z.
-        { apply pres_bind; [apply pres_get|]. intros s.
+        { apply pres_bind; [apply pres_gets|]. intros saved.
           apply pres_bind; [pres_mod HP|]. intros _.
           apply pres_bind; [apply pres_dblocks_render|]. intros r.
           apply pres_bind; [pres_mod HP|]. intros _.
